@@ -20,6 +20,7 @@ import (
 	"math"
 	"math/rand"
 	"sort"
+	"sync"
 	"time"
 )
 
@@ -57,8 +58,17 @@ const (
 	letterIdxMax  = 63 / letterIdxBits   // # of letter indices fitting in 63 bits
 )
 
+// randSource is seeded once: seeding from the clock on every call hands the
+// same bytes to callers that ask in the same instant
+var (
+	randMu     sync.Mutex
+	randSource = rand.NewSource(time.Now().UnixNano())
+)
+
 func RandBytes(n int) []byte {
-	source := rand.NewSource(time.Now().UnixNano())
+	randMu.Lock()
+	defer randMu.Unlock()
+	source := randSource
 	b := make([]byte, n)
 	// A src.Int63() generates 63 random bits, enough for letterIdxMax characters!
 	for i, cache, remain := n-1, source.Int63(), letterIdxMax; i >= 0; {
